@@ -11,6 +11,12 @@ CHECKS = {
         text="For value lists of length 0..4 with every NULL pattern (0..6 in thorough), duplicates and tuples of arity 2-3, in 18 boolean/CASE/comparison/IS contexts, on sqlite/postgresql/mysql, in three delivery modes (literal_binds, bound with expansion, compiled for another list length then re-bound via construct_params(extracted_parameters)), z3 proves the emitted predicate equals OR_i(x = v_i) (resp. its 3VL negation) for every column value incl. NULL, or yields a row; SQLite's empty-set sub-select is executed on sqlite3 for its rows; SQLite disagreements are replayed on sqlite3.",
         note="Trusted: vlib/sqlparse.py grammars, 3VL semantics in vlib/sqlsem.py, z3, sqlite3. PostgreSQL/MySQL: reference grammar only.",
         ref="DESIGN.md §4 C07"),
+    "C18": dict(
+        engine=E2, category="translation_validation",
+        technique="translation validation of the emitted SELECT structure: re-parsed (native clauses, TOP, ROW_NUMBER wrappers, ROWNUM nesting) and given a relational meaning over a bounded symbolic table; z3 decides multiset equality with the requested slice for all table contents and all limit/offset >= 0; sqlite3 replay where the syntax is accepted",
+        text="For ordered selects (plain and DISTINCT; limit, offset, both; limit()/fetch() API; parameter, expression and zero operands; literal and bound) on 8 dialect configurations (default, sqlite, postgresql, mysql, mssql >=2012 and <2012, oracle 12c and 11g), z3 proves that the re-parsed emitted statement returns exactly the rows offset < position <= offset+limit of the ordered (distinct) result for every 3-row (thorough: 4-row) table and every non-negative limit/offset, or returns a table on which they differ.",
+        note="Trusted: vlib/sqlselect.py/sqlparse.py structure grammar, relational semantics of ROW_NUMBER/ROWNUM/DISTINCT/slices in props/C18.py, z3. Only SQLite-compatible emitted forms are executed for confirmation; MSSQL/Oracle/MySQL/PostgreSQL native clauses are trusted to mean what their documentation says. NULL ordering, WITH TIES, PERCENT, joins and GROUP BY are outside.",
+        ref="DESIGN.md §4 C18"),
     "C19": dict(
         engine=E3, category="model_checking",
         technique="bounded model checking: util/topological.py interpreted from its AST over symbolic graphs with merged control flow, one z3 (QF_BV/SAT) validity query per obligation, unwinding assertions, counterexamples replayed on the real functions",
